@@ -1065,7 +1065,26 @@ impl endpoint::Session for Session {
         Ok(frame)
     }
 
-    fn on_outgoing_flow(&mut self, flow: LinkFlow) -> Result<SessionFrame, Self::Error> {
+    fn on_outgoing_flow(&mut self, mut flow: LinkFlow) -> Result<SessionFrame, Self::Error> {
+        // Deliveries of this link that are still held back because the remote incoming window
+        // is exhausted will reach the peer AFTER this flow: the link has already counted them,
+        // so they are taken out again, otherwise the receiver counts them twice
+        let held_back = self
+            .remote_incoming_window_exhausted_buffer
+            .iter()
+            .filter(|(_, transfer, _)| {
+                transfer.handle == flow.handle && transfer.delivery_tag.is_some()
+            })
+            .count() as u32;
+        if held_back > 0 {
+            flow.delivery_count = flow
+                .delivery_count
+                .map(|count| count.wrapping_sub(held_back));
+            flow.link_credit = flow
+                .link_credit
+                .map(|credit| credit.saturating_add(held_back));
+        }
+
         let flow = Flow {
             // Session flow states
             next_incoming_id: Some(self.next_incoming_id),
